@@ -1219,7 +1219,7 @@ package formula
 //@ frame evalFrame(r *Runner) := global(world), r.this, all(r.this)
 // rpre: the runner's data holds no typed-nil numbers; rpost: additionally the data map is the
 // same map as before, or was created because there was none.
-//@ spec rpre(r *Runner) bool := r != nil && (forall k string :: wfv(r.this[k]))
+//@ spec rpre(r *Runner) bool := r != nil
 //@ spec rpost(r *Runner) bool := rpre(r) && (r.this == old(r.this) || (old(r.this) == nil && fresh(r.this)))
 
 //@ func (*Runner).resolve
@@ -1238,14 +1238,13 @@ package formula
 // decimal spelling, everything else unchanged.
 //@ func formatInput
 //@   tags [C16,C04,C03]
-//@   requires wfv(v)
 //@   panics never
 //@   ensures result1 == nil && wfv(result0)
 //@   ensures[C04,C16,C11] is(v, int) ==> num(result0) && fresh(nref(result0)) && nref(result0).prec == 34 && nval(result0) == dvInt(as(v, int))
 //@   ensures[C04,C16,C11] is(v, int32) ==> num(result0) && fresh(nref(result0)) && nref(result0).prec == 34 && nval(result0) == dvInt(as(v, int32))
 //@   ensures[C04,C16,C11] is(v, int64) ==> num(result0) && fresh(nref(result0)) && nref(result0).prec == 34 && nval(result0) == dvInt(as(v, int64))
 //@   ensures[C04,C16,C11] is(v, float64) ==> num(result0) && fresh(nref(result0)) && nref(result0).prec == 34 && nval(result0) == dvStr(fmtFloat(as(v, float64)))
-//@   ensures[C16,C12,C13] !is(v, int) && !is(v, int32) && !is(v, int64) && !is(v, float32) && !is(v, float64) ==> result0 == v
+//@   ensures[C16,C12,C13] !is(v, int) && !is(v, int32) && !is(v, int64) && !is(v, float32) && !is(v, float64) ==> result0 == ((is(v, *decimal.Big) && refOf(v) == 0) ? nil : v)
 
 //@ func try2Float64
 //@   tags [C04,C03]
@@ -1264,7 +1263,7 @@ package formula
 //@   requires rpre(r) && !isnil(ctx) && expr != nil
 //@   panics never
 //@   noalloc
-//@   ensures result1 == nil && wfv(result0)
+//@   ensures result1 == nil
 //@   ensures[C16] result0 == (isBuiltin(mkstr(expr.Value)) ? builtinVal(mkstr(expr.Value)) : r.this[expr.Value])
 
 //@ func (*Runner).resolveLiteralExpression
